@@ -98,6 +98,14 @@ def fam_bitfield():
             for v in vals:  # a bit-field cannot be a _Generic operand under gcc: print it converted to its declared type, and through an arithmetic expression (promotion)
                 cases.append(("bitfield %s:%d = %s" % (sign, w, v), [], "{ %s memset (&s, 0, sizeof s); s.f = %s; P (@ID@, (%s) s.f); P (@ID@ + 1000000, (%s) s.g); %s }" % (decl, v, base, base, "P (@ID@ + 2000000, s.f + 0);" if w <= 32 else "")))
                 cases.append(("bitfield %s:%d += %s" % (sign, w, v), [], "{ %s memset (&s, 0, sizeof s); s.f = 1; s.g = 3; s.f += %s; s.f++; P (@ID@, (%s) s.f); P (@ID@ + 1000000, (%s) s.g); P (@ID@ + 2000000, s.f < 0); P (@ID@ + 3000000, s.f > s.g); }" % (decl, v, base, base)))
+    # value of an assignment expression whose left operand is a bit-field: the value of the field after the assignment (truncated to its width)
+    for w in [1, 3, 4, 9, 16, 31, 32, 33]:
+        for sign, base in (("signed", "int" if w <= 32 else "long"), ("unsigned", "unsigned" if w <= 32 else "unsigned long")):
+            decl = "struct { int pad:3; %s f:%d; %s g:%d; } s;" % (base, w, base, min(w, 5))
+            for v in ["300", "-1", "(1ull << %d)" % (w - 1), "(1ull << %d) - 1" % (w if w < 64 else 63), "7"]:
+                cases.append(("bitfield assignment value %s:%d %s" % (sign, w, v), [],
+                              "{ %s memset (&s, 0, sizeof s); volatile long long x = %s; long long r1 = (s.f = x), r2 = (s.f += 10), r3 = ++s.f, r4 = s.f--, r5 = (s.f *= 3), r6 = (s.f |= x); P (@ID@, r1); P (@ID@ + 1000000, r2); P (@ID@ + 2000000, r3); "
+                              "P (@ID@ + 3000000, r4); P (@ID@ + 4000000, r5); P (@ID@ + 5000000, r6); P (@ID@ + 6000000, (%s) s.f); P (@ID@ + 7000000, (s.g = x) ? 1 : 2); }" % (decl, v, base)))
     for v in ["0", "1", "2", "256", "-1", "0.5", "0.0", "4294967296ll"]:  # _Bool bit-field and member: conversion to _Bool compares with zero
         decl = "struct { _Bool f:1; unsigned u:3; _Bool g; } s;"
         cases.append(("bitfield _Bool:1 = %s" % v, [], "{ %s volatile %s x = %s; memset (&s, 0, sizeof s); s.f = x; s.g = x; s.u = 5; P (@ID@, (int) s.f); P (@ID@ + 1000000, (int) s.g); s.f ^= 1; s.g += x; P (@ID@ + 2000000, (int) s.f); P (@ID@ + 3000000, (int) s.g); }" % (decl, "double" if "." in v else "long long" if v.endswith("ll") else "int", v)))
